@@ -461,7 +461,8 @@ Quiescent ==
   /\ ~(Queued # {} /\ EarlierNotesDone(NextUnit))           \* every possible dispatch has been taken
   /\ Imp("C03", Queued # {} => ~EarlierNotesDone(NextUnit))
   \* work conservation (C06) / later requests are not held up by a running call (C03)
-  /\ ("C06" \in Enforce \/ "C03" \in Enforce) =>
+  \* ... and a call that could run but never does will never be answered (C01)
+  /\ ("C06" \in Enforce \/ "C03" \in Enforce \/ "C01" \in Enforce) =>
         ~(\E t \in DOMAIN mem : Startable(t) /\ Cardinality(running) < conc)
   \* C01: nothing answerable is left unanswered while the channel works
   /\ Imp("C01", (~stopped /\ ~sendBad) => ~\E u \in 1..Len(units) : Answerable(u) \/ units[u].st = "direct")
@@ -509,7 +510,7 @@ Final ==
   /\ UNCHANGED <<conc, push, mem, units, rq, used, running, stopped, pend, causes, cancelOK, hcanc, cbs, notes, waitRet, rdDone, sendBad, stopOpen>>
 
 \* events that carry no obligation for this contract
-Ignored == /\ l <= Len(Trace) /\ Ev.ev \in {"PeerClose", "Teardown", "SB", "SE", "RB", "RE", "CB", "CE"}
+Ignored == /\ l <= Len(Trace) /\ Ev.ev \in {"PeerClose", "Teardown", "SB", "SE", "RB", "RE", "CB", "CE", "Drift"}
            /\ l' = l + 1
            /\ UNCHANGED <<conc, push, mem, units, rq, used, running, stopped, pend, causes, cancelOK, hcanc, cbs, notes, waitRet, rdDone, sendBad, stopOpen>>
 
